@@ -488,24 +488,36 @@ Proof.
   apply lp_valid_linearizable. exact Hv.
 Qed.
 
-(** ** the full history (reads included), for the statement that is NOT proved here *)
-Definition fstep (out : hist) (te : nat * ev) : hist :=
+(** ** the full history (reads included), for the statement that is NOT proved here.
+    Every completed operation is kept with its result, except an [unlink] that returned false: unlink( val ) fails
+    both when the key is absent and when the list holds a different item with that key, which is not an
+    operation of the sequential set (the harness records it as "skip" as well); its invocation is deleted. *)
+Fixpoint code_of (t : nat) (pend : list (nat * Z)) : Z :=
+  match pend with
+  | [] => 0
+  | (u, c) :: r => if Nat.eqb u t then c else code_of t r
+  end.
+
+Definition fstep (s : hist * list (nat * Z)) (te : nat * ev) : hist * list (nat * Z) :=
+  let (out, pend) := s in
   match te with
   | (t, EvCli name args) =>
       if String.eqb name "inv" then
         match args with
-        | [c; k; x; _] => out ++ [@HInv SetSpec t (spec_op c k x)]
-        | _ => out
+        | [c; k; x; _] => (out ++ [@HInv SetSpec t (spec_op c k x)], (t, c) :: pend)
+        | _ => s
         end
       else if String.eqb name "ret" then
         match args, last_inv_op t out None with
-        | [a; b], Some o => out ++ [@HRes SetSpec t (res_of o a b)]
-        | _, _ => out
+        | [a; b], Some o =>
+            if Z.eqb (code_of t pend) 6 && Z.eqb a 0 then (rm_last (is_hinv t) out, pend)
+            else (out ++ [@HRes SetSpec t (res_of o a b)], pend)
+        | _, _ => s
         end
-      else out
-  | (_, EvAcc _ _ _) => out
+      else s
+  | (_, EvAcc _ _ _) => s
   end.
-Definition full_hist (tr : list (nat * ev)) : hist := fold_left fstep tr [].
+Definition full_hist (tr : list (nat * ev)) : hist := fst (fold_left fstep tr ([], [])).
 
 (** executable traversal of the real list (for examples): node ids from pointer [p] *)
 Fixpoint walk (g : G) (fuel : nat) (p : nat) : list nat :=
